@@ -278,6 +278,18 @@ pub fn programs() -> Vec<Program> {
             &["E0505"],
             format!("{} let mut b = it.buffered_iter(2); let c = b.next(); drop(c); drop(b); let s = it.into_seq_iter(); let _ = s.count();", k.mk));
     }
+    // ---- the internal, unreserved pull of the buffered machinery must stay unreachable from safe client code
+    const UNREACHABLE: &[&str] = &["E0599", "E0405", "E0412", "E0432", "E0433", "E0603", "E0576", "E0425"];
+    let twin_src = "#![forbid(unsafe_code)]\nuse orx_concurrent_iter::*;\nfn two<C: ConcurrentIter>(it: &C) -> (Option<C::Item>, Option<C::Item>) {\n    let mut b1 = it.buffered_iter(1);\n    let a = b1.next().and_then(|mut x| x.values.next());\n    let mut b2 = it.buffered_iter(1);\n    let b = b2.next().and_then(|mut x| x.values.next());\n    (a, b)\n}\nfn main() {\n    let it = vec![String::from(\"x\")].into_con_iter();\n    let (a, b) = two(&it);\n    assert!(a.is_some() && b.is_none());\n}\n";
+    out.push(Program { name: "pv-buffered-pull-ok".into(), class: "internal-pull-reachable", src: twin_src.to_string(), expect: Expect::Accept, twin: None });
+    for (name, body) in [
+        ("projection", "    let mut b1 = C::BufferedIter::new(1);\n    let mut b2 = C::BufferedIter::new(1);\n    let a = b1.pull(it, 0).and_then(|mut x| x.next());\n    let b = b2.pull(it, 0).and_then(|mut x| x.next());\n    (a, b)"),
+        ("named-trait", "    let mut b1 = <C::BufferedIter as BufferedChunk<C::Item>>::new(1);\n    let mut b2 = <C::BufferedIter as BufferedChunk<C::Item>>::new(1);\n    let a = BufferedChunk::pull(&mut b1, it, 0).and_then(|mut x| x.next());\n    let b = BufferedChunk::pull(&mut b2, it, 0).and_then(|mut x| x.next());\n    (a, b)"),
+        ("module-path", "    use orx_concurrent_iter::iter::buffered::buffered_chunk::BufferedChunk as BC;\n    let mut b1 = <C::BufferedIter as BC<C::Item>>::new(1);\n    let a = BC::pull(&mut b1, it, 0).and_then(|mut x| x.next());\n    let b = BC::pull(&mut b1, it, 0).and_then(|mut x| x.next());\n    (a, b)"),
+    ] {
+        let src = format!("#![forbid(unsafe_code)]\nuse orx_concurrent_iter::*;\nfn two<C: ConcurrentIter>(it: &C) -> (Option<C::Item>, Option<C::Item>) {{\n{}\n}}\nfn main() {{\n    let it = vec![String::from(\"x\")].into_con_iter();\n    let (a, b) = two(&it);\n    println!(\"{{:?}} {{:?}}\", a, b);\n}}\n", body);
+        out.push(Program { name: format!("pv-buffered-pull-{}", name), class: "internal-pull-reachable", src, expect: Expect::Reject(UNREACHABLE), twin: Some("pv-buffered-pull-ok".into()) });
+    }
     // L10: iterator over a temporary
     pair(&mut out, "lt-slice-of-temporary".to_string(), "reference-outlives-collection",
         "let it = ConIterOfSlice::new(&vec![1usize, 2][..]); let _ = it.next();".to_string(),
